@@ -269,7 +269,7 @@ def match_known(pid, shape):
     return None
 
 
-def record_violations(run, pid, viols, trace_lines, scen_of_line=None, trace_name="trace"):
+def record_violations(run, pid, viols, trace_lines, scen_of_line=None, trace_name="trace", whole_case=False):
     """viols: list of [property, line, shape].  Splits into known / new; writes
     a replay (trace prefix up to the offending line) for the first new ones."""
     new = 0
@@ -291,14 +291,22 @@ def record_violations(run, pid, viols, trace_lines, scen_of_line=None, trace_nam
         # prefix from the last reset before `line`
         start = 0
         for i in range(min(line, len(trace_lines)) - 1, -1, -1):
-            if '"ev":"reset"' in trace_lines[i] or '"ev": "reset"' in trace_lines[i]:
+            if '"ev":"reset"' in trace_lines[i] or '"ev": "reset"' in trace_lines[i] or (whole_case and '"ev":"case"' in trace_lines[i][:600]):
                 start = i
                 break
         with open(rp, "w") as fh:
             fh.write(json.dumps({"replay_of": pid, "shape": shape, "seed": run.seed, "tier": run.tier,
                                  "offending_line_in_this_file": line - start + 1,
                                  "note": "events recorded from the real code; last line is where the predicate was false"}) + "\n")
-            for ln in trace_lines[start:line]:
+            end = line
+            if whole_case:
+                # rig traces: the judgement is made at the end of the case; keep the whole case
+                end = len(trace_lines)
+                for i in range(line, len(trace_lines)):
+                    if '"ev":"case"' in trace_lines[i][:600]:
+                        end = i
+                        break
+            for ln in trace_lines[start:end]:
                 fh.write(ln if ln.endswith("\n") else ln + "\n")
         run.violations.append({"property": pid, "shape": shape, "line": line, "replay": rp})
     return new
